@@ -856,6 +856,20 @@ class LayoutTyper(Structured):
                 if st is None:
                     return None
             return st
+        if isinstance(t, ast.BoolOp) and isinstance(t.op, ast.Or) and truth:
+            # `a == X.attrs or a == list(X.attrs)`: every disjunct states the same equality (up to a list/tuple wrapper)
+            def strip(x):
+                while isinstance(x, ast.Call) and isinstance(x.func, ast.Name) and x.func.id in ('list', 'tuple') and len(x.args) == 1:
+                    x = x.args[0]
+                return x
+            eqs = [v_ for v_ in t.values if isinstance(v_, ast.Compare) and len(v_.ops) == 1 and isinstance(v_.ops[0], ast.Eq)]
+            if len(eqs) == len(t.values):
+                keys = {tuple(sorted((U(strip(v_.left)), U(strip(v_.comparators[0]))))) for v_ in eqs}
+                if len(keys) == 1:
+                    v0 = eqs[0]
+                    same = ast.Compare(left=strip(v0.left), ops=[ast.Eq()], comparators=[strip(v0.comparators[0])])
+                    return self.refine(st, same, True)
+            return st
         if isinstance(t, ast.BoolOp) and isinstance(t.op, ast.Or) and not truth:
             for v_ in t.values:
                 st = self.refine(st, v_, False)
